@@ -2,6 +2,7 @@
 // (sticky fail/eof) and a trace of every write (output offset, length, source address) and read.
 #pragma once
 #include <Vector/BLF.h>
+#include <algorithm>
 #include <cstring>
 #include <vector>
 struct MemFile : Vector::BLF::AbstractFile {
@@ -11,12 +12,15 @@ struct MemFile : Vector::BLF::AbstractFile {
     bool failb = false, eofb = false;
     bool trace = false;
     std::vector<Chunk> wr;      // write trace
+    std::vector<Chunk> rd;      // read trace (input offset, bytes delivered, destination)
     size_t nreads = 0, nseeks = 0;
     long long min_g = 0;        // lowest get position ever reached (negative = seek before start)
     std::streamsize gcount() const override { return gc; }
     void read(char * s, std::streamsize n) override {
         nreads++;
         if (failb) { gc = 0; return; }
+        if (g < 0) { failb = true; gc = 0; return; }
+        if (trace) rd.push_back(Chunk{(size_t)g, (size_t)std::max<std::streamsize>(0, std::min<std::streamsize>(n, (std::streamsize)buf.size() - g)), s});
         std::streamsize avail = (std::streamsize)buf.size() - g;
         if (avail < 0) avail = 0;
         if (n > avail) {
